@@ -81,6 +81,19 @@ def handle : Handler
       | none => do
         let f ← f3 name
         run3 f m w u v
+  | "as4_tdiv_qr", [.num m, .num qa, .num qv, .num ra, .num rv, .num na, .num nv, .num da, .num dv] => do
+      let q ← mk? qa qv; let r ← mk? ra rv; let n ← mk? na nv; let d ← mk? da dv
+      let s : St := ⟨fun i => if i = 0 then q else if i = 1 then r else if i = 2 then n else d, true⟩
+      -- ids: q = 0, r = 1, n = 2, d = 3
+      let ids : Option (Nat × Nat × Nat × Nat) :=
+        match m with
+        | 0 => some (0, 1, 2, 3) | 1 => some (2, 1, 2, 3) | 2 => some (3, 1, 2, 3) | 3 => some (0, 2, 2, 3) | 4 => some (0, 3, 2, 3)
+        | 5 => some (2, 3, 2, 3) | 6 => some (3, 2, 2, 3) | 7 => some (0, 1, 2, 2) | 8 => some (2, 1, 2, 2) | 9 => some (0, 2, 2, 2)
+        | _ => none
+      let (Q, R, N, D) ← ids
+      match mpz_tdiv_qr s Q R N D with
+      | none => some [.err "div0"]
+      | some s' => if !s'.ok then some [.err "oob"] else some (outW s' Q ++ outW s' R)
   | "as4_sqrt", [.num m, .num wa, .num wv, .num ua, .num uv] => do
       let w ← mk? wa wv; let u ← mk? ua uv
       let s := heap w u u
